@@ -28,6 +28,9 @@ Explains(e) ==
         /\ FormatExplains(e.f, ValueOf(e), e.t)
         /\ (IF "ok" \in DOMAIN e.t THEN "ok" \in DOMAIN e.r /\ e.r.ok = Padded(e.t.ok, e.width, e.align)
             ELSE "err" \in DOMAIN e.r)
+     \/ /\ e.op = "fmt_parts"                                \* DelayedFormat::new / new_with_offset: any presence pattern of the parts
+        /\ InDates(e.n) /\ TimeOk(e) /\ e.off > -86400 /\ e.off < 86400
+        /\ FormatExplains(e.f, Val(e.n, e.secs, e.frac, e.off, e.hd, e.ht, e.ho), e.r)
      \/ /\ e.op = "fmt_items" /\ WellTyped(e)               \* format_with_items on an explicit item list
         /\ (IF Fails(e.items, ValueOf(e)) THEN "err" \in DOMAIN e.r
             ELSE "ok" \in DOMAIN e.r /\ MatchFrom(e.items, ValueOf(e), 1, e.r.ok, 1))
